@@ -54,7 +54,18 @@ RULE = ("lock-step histories of add / add_single / clear on ProximityArchive wit
         "exact ties, 3-4-5 triangles put the novelty exactly on the threshold); batches mix novel and non-novel "
         "candidates, duplicates and several competitors for one neighbour; growth across several capacity "
         "doublings; the oracle is brute-force k-nearest neighbours in exact arithmetic with integer square-root "
-        "brackets; non-trivial when a batch contains both a novel and a non-novel candidate or the capacity grows")
+        "brackets; non-trivial when a batch contains both a novel and a non-novel candidate or the capacity grows. "
+        "Every history may also contain: checkpoints (continue on a pickled / deep-copied archive); non-default "
+        "ckdtree_kwargs (leafsize, balanced_tree, compact_nodes, copy_data; boxsize 1024 with the whole history inside "
+        "less than half a box, where the wrapped distance is the Euclidean one) passed as a dict object that the harness "
+        "changes after construction and re-uses for further (periodic) archives; calls that must be REJECTED at random "
+        "points (an extra field as a column vector / with an extra trailing or leading axis / one entry too wide, a core "
+        "argument with an extra axis, a candidate outside the periodic box, the malformed calls of C11's fault table; "
+        "always next to a candidate that would have to be stored), after which entries, statistics, best elite, bounds, "
+        "self-retrieval and compute_novelty / index_of against brute force must be as if the call had never happened "
+        "and the remaining history stays in lock step with the model; bounds are compared with the min / max of the "
+        "stored measures after every operation, read from the archive itself or (to vary WHEN its cache is filled) "
+        "from a deep copy")
 PARTIAL = ["k>1 novelty is a sum of square roots: bracketed by rationals at 2^-40; a candidate whose novelty bracket "
            "contains the threshold may be admitted or not (counted in the evidence as undecided)",
            "local_competition counts are compared only when the k-th and (k+1)-th neighbours are not equidistant"]
@@ -493,16 +504,25 @@ class Run:
             self.bump(f"rej:{op['entry']}:{op['how']}:skip")
             return None
         sol, obj, meas, extras, what = args
+
+        def call(archive):
+            try:
+                if single:
+                    archive.add_single(sol[0], None if obj is None else obj[0], meas[0], **{k: v[0] for k, v in extras.items()})
+                else:
+                    archive.add(sol, obj, meas, **extras)
+            except (ValueError, TypeError, IndexError, RuntimeError) as e:      # (documented: ValueError)
+                return f"{type(e).__name__}: {str(e)[:120]}"
+            return None
+
+        # NumPy's own semantics may make such a call valid (a batch of one whose extra axis of extent 1 is dropped on
+        # assignment): it is first tried on a deep copy and made on the archive only if that copy rejects it
+        if call(copy.deepcopy(self.a)) is None:
+            self.bump(f"rej:{op['entry']}:{op['how']}:skip-valid-for-numpy")
+            return None
         pre = self.snapshot(self.peek)
         cap_before = int(self.a.capacity)
-        exc = None
-        try:
-            if single:
-                self.a.add_single(sol[0], None if obj is None else obj[0], meas[0], **{k: v[0] for k, v in extras.items()})
-            else:
-                self.a.add(sol, obj, meas, **extras)
-        except (ValueError, TypeError, IndexError, RuntimeError) as e:      # (documented: ValueError)
-            exc = f"{type(e).__name__}: {str(e)[:120]}"
+        exc = call(self.a)
         self.bump(f"rej:{op['entry']}:{op['how']}:{'raised' if exc else 'accepted'}")
         desc = f"{'add_single' if single else 'add'}({what}; {len(rows)} candidate{'s' if len(rows) != 1 else ''})"
         verb = f"raised {exc}" if exc else "was accepted without an error"
@@ -797,6 +817,10 @@ class Run:
                     f = self.do_rej(op, where)
                 elif op["op"] == "kwmut":
                     self.kwmut(op["how"])
+                if f is None and op["op"] in ("ckpt", "bad", "kwmut"):
+                    # the bounds describe the contents after EVERY operation (on the copy a checkpoint continues
+                    # with, after a malformed call of any entry point, after the caller re-used its options dict)
+                    f = self.bounds_check(self.obs(), where)
                 if f is not None:
                     return f
             return None
